@@ -400,6 +400,44 @@ def g8(rep, config):
                               "(fault or a corrupted index, only when the collector happens to run inside this call)"
                               % (who, hit.get("callee"), hit["l"]))
     rep.floor("stores that flag a piece free (%s)" % config, n, 2)
+    # the other direction: a piece taken OUT of the index keeps its flag from when it was put in; the flag must be cleared
+    # before anything that may collect runs (piecePutMixed merging into a free left neighbour re-links that neighbour)
+    m = 0
+    for name, fn in sorted(funcs.items()):
+        if name.startswith("stoGc"):
+            continue
+        outs = [c for c in common.calls(fn["body"]) if c.get("callee") in ("mxmemUnlinkFromBTree", "mxmemUnlink")]
+        if not outs:
+            continue
+        cfg = common.CFG(fn)
+
+        def clears(e):
+            if e["k"] == "BinaryOperator" and e["op"] == "=":
+                l = strip(e["c"][0])
+                return l is not None and l["k"] == "MemberExpr" and l["n"] == "isFree" and const_value(e["c"][1]) == 0
+            return False
+        for c in outs:
+            m += 1
+            ev = cfg.events(lambda e, c=c: e.get("id") == c["id"])
+            if not ev:
+                raise AnalysisBroken("store.c [%s] %s: unlink call not in the CFG" % (config, name))
+            b, i, _ = ev[0]
+            hit = None
+            for cb, ci, cn in cfg.events(lambda e: e["k"] == "CallExpr" and e.get("callee") in may_collect and
+                                         e.get("callee") not in ("mxmemUnlinkFromBTree", "mxmemUnlink")):
+                if cfg.path_avoiding(b, lambda e, cn=cn: e.get("id") == cn["id"], clears, src_idx=i) is not None:
+                    hit = cn
+                    break
+            key = "unlinked-piece-unflagged:%s@%d" % (name, sum(1 for o in outs if o["l"] <= c["l"]))
+            if hit is None:
+                rep.ok("G8", key + ":" + config)
+            else:
+                rep.violation("G8", key, "store.c:%d (%s) [%s]" % (c["l"], name, config),
+                              "a piece is taken out of the free-piece index here and %s (line %d), which may start a collection, "
+                              "is reached without its isFree flag having been cleared: during that collection the sweep takes the "
+                              "piece for an indexed free neighbour and unlinks it again (index corruption; the audit fails)"
+                              % (hit.get("callee"), hit["l"]))
+    rep.floor("pieces taken out of the index outside the collector (%s)" % config, m, 2)
 
 
 def run(tier, only=None):
@@ -415,6 +453,6 @@ def run(tier, only=None):
     for config in ("compiler", "runtime"):
         g6(rep, config)
         g7(rep, config)
-        pass  # g8(rep, config): armed once the pieceGetMixed report has been replayed (triage in progress)
+        g8(rep, config)
     rep.assumptions.append("setjmp stores the callee-saved registers in its buffer (the idiom the collector relies on)")
     return rep
